@@ -6,6 +6,7 @@ package profile
 import (
 	"fmt"
 	"path"
+	"path/filepath"
 	"potano.layercake/fs"
 	"potano.layercake/portage/depend"
 )
@@ -73,20 +74,15 @@ func readParentFile(deps *depend.UserEnteredDependencies, filename, profilePath 
 		return err
 	}
 	defer cursor.Close()
+	// Parent paths are relative to the real directory of the profile:
+	// resolve every symbolic link on the way, not just a final one
+	profilePath, err = filepath.EvalSymlinks(profilePath)
+	if err != nil {
+		return err
+	}
 	var line string
 	for cursor.ReadLine(&line) {
 		if len(line) > 0 {
-			if fs.IsSymlink(profilePath) {
-				pth, err := fs.Readlink(profilePath)
-				if err != nil {
-					return err
-				}
-				if pth[0] == '/' {
-					profilePath = pth
-				} else {
-					profilePath = path.Join(path.Dir(profilePath), pth)
-				}
-			}
 			profile := path.Join(profilePath, line)
 			err := readProfileDirectory(deps, profile)
 			if err != nil {
